@@ -367,7 +367,13 @@ func checkShould(content []byte, tags map[string]bool) {
 	run.Eval(1)
 	want := refShouldBuild(content, tags)
 	var got bool
-	if pv, st := vlib.Try(func() { got = imports.ShouldBuild(content, tags) }); pv != nil {
+	gc, gcChanged := vlib.Guarded(content)
+	defer func() {
+		if c := gcChanged(); c != "" {
+			report("argument-modified", tcase{Content: string(content) + " [ShouldBuild: " + c + "]"})
+		}
+	}()
+	if pv, st := vlib.Try(func() { got = imports.ShouldBuild(gc, tags) }); pv != nil {
 		report("shouldbuild-panic", tcase{Content: string(content), Tags: tagList(tags)})
 		_ = st
 		return
